@@ -230,6 +230,17 @@ class C08Run(object):
                 else:
                     k.external_exit(pid, op.get('arg', 1))
                 self.count(self.fired, 'die')
+        elif kind == 'addsock':
+            # the configuration file gains a managed unix socket (bound by
+            # the next reloadconfig, not at start-up): its file is the
+            # daemon's to remove as well
+            n = len(self.unix_paths)
+            pth = os.path.join(os.path.dirname(self.ini_path),
+                               'added%d.sock' % n)
+            with open(self.ini_path, 'a') as f:
+                f.write('\n[socket:added%d]\npath = %s\n' % (n, pth))
+            self.unix_paths.append(pth)
+            self.count(self.fired, 'addsock')
         elif kind == 'dsig':
             sig = op['sig']
             self.count(self.fired, 'dsig:%d' % sig)
@@ -493,6 +504,11 @@ class C08(Prop):
                             'arg': rng.choice([0, 1, 3])})
             elif x < 0.9:
                 ops.append({'op': 'dsig', 'sig': 1, 'at': t})
+                if rng.random() < 0.5:
+                    ops[-1] = {'op': 'addsock', 'at': t}
+                    ops.append({'op': 'req', 'cmd': 'reloadconfig',
+                                'at': t + 0.01, 'w': None, 'props': {},
+                                'waiting': True})
             else:
                 ops.append({'op': 'req', 'cmd': 'restart', 'at': t, 'w': None,
                             'props': {}, 'waiting': False})
